@@ -265,7 +265,9 @@ package syncer
 //@   after_call syncer.(*InstanceSet).Contains#2 ghost loc_waitOwn := ghost_lastContains
 //@   after_call syncer.(*InstanceSet).Contains#2 ghost loc_prevSynced := uint64(lastSyncedTxnID)
 //@   at_call receiver.(*Receiver).RunOnce#0 assert initial_listing_includes_own: arg2
-//@   at_call syncer.(*Syncer).SendOnce#0 assert no_snapshot_exists_yet: hasDataAtStart && !hasSnapshots
+//@   after_call lmdb.(*Env).Info#0 ghost loc_startLast := uint64(ret0.LastTxnID)
+//@   after_call receiver.(*Receiver).HasSnapshots#0 ghost loc_hasSnap := ite(ret0, 1, 0)
+//@   at_call syncer.(*Syncer).SendOnce#0 assert no_snapshot_exists_yet: ghost_loc_startLast > 0 && ghost_loc_hasSnap == 0
 //@   at_call syncer.(*Syncer).SendOnce#1 assert own_old_snapshot_loaded_first: !waitingForInstances.Contains(ownInstanceID)
 //@   at_call syncer.(*Syncer).SendOnce#1 assert local_change_startup_or_forced: snapshotOverdue || ghost_loc_prevSynced == 0 || ghost_lastApp > ghost_loc_prevSynced
 //@   noswallow except receiver.(*Receiver).RunOnce
